@@ -113,6 +113,12 @@ def interp_module(ctx, items):
     out = ["pub mod interp {", "use crate::op::Op;", "use crate::value::{MaskCache, Value, ValueU64};"]
     for kind, name in [("struct", "ExpressionContext"), ("enum", "Expression"), ("struct", "DynamicBitSelect")]:
         it = s.item(kind, name)
+        if kind == "enum":
+            # rule EL: explicit one-byte tag instead of the niche encoding rustc picks (the tag would live in the Option discriminant of
+            # DynamicVariable::select). Layout only - no safe code can observe it - but CBMC's symbolic execution then sees the variant of a
+            # freshly built Box<Expression> child as a constant and explores only the arm that is really taken (probe: 12092 -> 2007 steps).
+            it.prepend("#[repr(u8)]")
+            it.rules.append("EL: `#[repr(u8)]` prepended to `enum Expression`: explicit tag instead of niche encoding (layout only; semantics of safe code unchanged)")
         items.append(it)
         out.append(it.render())
     ev = s.item("fn", "eval", impl="Expression")
